@@ -35,6 +35,7 @@ Proof.
   pose proof (rank_thread_nonneg SO (t_so (w_thr w))). pose proof (rank_thread_nonneg PB (t_pb (w_thr w))).
   pose proof (rank_thread_nonneg PU (t_pu (w_thr w))). pose proof (rank_thread_nonneg CD (t_cd (w_thr w))).
   pose proof (rank_thread_nonneg MU (t_mu (w_thr w))). pose proof (rank_thread_nonneg UN (t_un (w_thr w))).
+  pose proof (rank_thread_nonneg AP (t_ap (w_thr w))).
   assert (0 <= rank_run (pc_of w)) by (destruct (pc_of w); cbn; lia). lia.
 Qed.
 
@@ -79,7 +80,7 @@ Proof.
   intros Hb E Hf. destruct a; try discriminate; unfold Shutdown.step in E.
   - destruct ok; [|discriminate]. unfold Shutdown.step_run in E.
     destruct (pc_of w); splitifs E; try discriminate; apply some_inj in E; subst w'; cbn; try assumption; reflexivity.
-  - destruct (thread w t); try discriminate. apply some_inj in E; subst w'. exact Hf.
+  - apply (areg_inv cap ucfg daf) in E. destruct E as (_ & _ & ->). exact Hf.
   - destruct k; try discriminate. rewrite (pufail_step_thread w t n w' E). exact Hf.
 Qed.
 
@@ -194,6 +195,39 @@ Theorem mu_dist_stable_reachable : forall acts a w',
   mu_dist ucfg w' <= mu_dist ucfg w.
 Proof. intros acts a w' Hp w. exact (mu_dist_stable cap ucfg daf w a w' (Inv_reachable cap ucfg daf acts Hp)). Qed.
 
+(* no goroutine - of the node or of the application inside Node.HandleTx - is ever parked in a send on a
+   closed channel (a Go panic): Add keeps the mutex while it waits and Close needs the mutex *)
+Theorem no_send_on_closed : forall acts t c f,
+  thread (run acts) t = TLive (PSend c) f -> ch_open (run acts) c = true.
+Proof.
+  intros acts t c f Et. destruct (i2_thr daf _ (Inv2_reachable cap ucfg daf acts) t) as (_ & B & _). eapply B; exact Et.
+Qed.
+
+(* a call of the public API begun after the tx channel was closed returns an error at once: it
+   changes nothing but its own program point, and is over after one more step *)
+Theorem api_after_close : forall acts,
+  let w := run acts in
+  x_open (w_ch w) = false -> thread w AP = TNone ->
+  exists w1 w2, step w AApiTx = Some w1 /\ step w1 (AStep AP KEnd 0) = Some w2 /\
+                thread w2 AP = TNone /\ w_ch w2 = w_ch w /\ w_ctl w2 = w_ctl w /\ w_cnt w2 = w_cnt w /\ w_dat w2 = w_dat w.
+Proof.
+  intros acts w Hx Ha.
+  pose proof (Inv2_reachable cap ucfg daf acts) as H. fold w in H.
+  assert (Hl : ch_locked w CTx = false).
+  { unfold ch_locked.
+    assert (Hn : forall t, at_send CTx (thread w t) = false).
+    { intros t. destruct (thread w t) as [| |p f|] eqn:Et; try reflexivity. destruct p; try reflexivity.
+      destruct c; try reflexivity. destruct (i2_thr daf w H t) as (_ & B & _). specialize (B CTx f Et). cbn in B. congruence. }
+    rewrite !Hn. reflexivity. }
+  eexists _, _. split; [|split].
+  - unfold Shutdown.step. rewrite Ha. reflexivity.
+  - unfold Shutdown.step, Shutdown.step_thread, thread. cbn.
+    assert (Hl' : ch_locked (set_thread w AP (TLive (PLock CTx) 0)) CTx = false).
+    { unfold ch_locked, thread in *. cbn. rewrite orb_false_r. apply orb_false_iff in Hl. destruct Hl as [Hl _]. exact Hl. }
+    unfold thread in Hl'. cbn in Hl'. rewrite Hl'. unfold ch_open. cbn. rewrite Hx. reflexivity.
+  - cbn. repeat split; reflexivity.
+Qed.
+
 (* ---- D26: a permanent hang ---- *)
 
 (* the consumer of the tx channel is gone, monitorIncoming waits for room in the full channel, the
@@ -267,7 +301,9 @@ Proof.
   - destruct (w_conn w); try discriminate. apply some_inj in E0; subst w'. eapply (stuck_frame _ _ Hs); reflexivity.
   - unfold thread in E0. cbn in E0. destruct (t_un (w_thr w)) as [| |p f|]; try discriminate. destruct p; try discriminate.
     destruct (w_ustop w); [discriminate|]. apply some_inj in E0; subst w'. eapply (stuck_frame _ _ Hs); reflexivity.
-  - destruct (thread w t) eqn:Et; try discriminate. apply some_inj in E0; subst w'.
+  - unfold thread in E0. cbn in E0. destruct (t_ap (w_thr w)); try discriminate. apply some_inj in E0; subst w'.
+    eapply (stuck_frame _ _ Hs); reflexivity.
+  - apply (areg_inv cap ucfg daf) in E0. destruct E0 as (_ & Et & ->).
     unfold thread in Et. destruct t; cbn in Et; try congruence; eapply (stuck_frame _ _ Hs); cbn; rewrite ?Et; cbn; first [reflexivity|lia].
   - destruct (tid_eq_dec t MI) as [->|N1].
     + unfold Shutdown.step_thread, thread in E0. cbn in E0. rewrite D in E0.
@@ -392,24 +428,43 @@ Qed.
 Theorem sender_returns_refuted :
   exists acts, prompt 100 false true false acts = true /\
     let w := run 100 false true false acts in
-    stopcall w = 2 /\ stopped w = false /\
-    (forall a, step 100 false true false w a = None) /\
-    (forall acts', stopped (run_from 100 false true false w acts') = false).
+    stopcall w = 2 /\ stopped w = false /\ pc_of w = RWaitIn /\
+    (* nothing can move - no step of the run loop, of a goroutine, of the peers or of Stop - except that
+       the application may still push transactions through the public API, which does not help *)
+    (forall a, a <> AApiTx -> step 100 false true false w a = None).
 Proof.
-  exists sr_acts. destruct sr_facts as (F1 & F2 & F3 & _).
-  split; [exact F1|]. cbv zeta. split; [exact F2|]. split; [exact F3|].
-  assert (Hd : forall a, step 100 false true false sr_w a = None).
-  { intros a. destruct a.
-    - destruct ok; vm_compute; reflexivity.
-    - vm_compute; reflexivity.
-    - vm_compute; reflexivity.
-    - vm_compute; reflexivity.
-    - vm_compute; reflexivity.
-    - vm_compute; reflexivity.
-    - destruct t; vm_compute; reflexivity.
-    - destruct t; vm_compute; reflexivity. }
-  split; [exact Hd|]. intros acts'. rewrite (dead_forever _ _ _ _ _ Hd). exact F3.
+  exists sr_acts. destruct sr_facts as (F1 & F2 & F3 & F4 & _).
+  split; [exact F1|]. cbv zeta. split; [exact F2|]. split; [exact F3|]. split; [exact F4|].
+  intros a Ha. destruct a.
+  - destruct ok; vm_compute; reflexivity.
+  - vm_compute; reflexivity.
+  - vm_compute; reflexivity.
+  - vm_compute; reflexivity.
+  - vm_compute; reflexivity.
+  - vm_compute; reflexivity.
+  - congruence.
+  - destruct t; vm_compute; reflexivity.
+  - destruct t; vm_compute; reflexivity.
 Qed.
+
+(* ---------------------------------------------------------------------------------------------- *)
+(* TxChannel.Add waiting for room outside the mutex (capacity 1 for brevity): the application's second
+   HandleTx waits for room (nothing is taken off the channel), Stop is requested, the incoming goroutines
+   leave, the run loop closes the channels - with the sender still parked: "send on closed channel".
+   On the same schedule the code (Add keeps the mutex) makes the run loop wait at Close. *)
+Definition sol_acts : list act :=
+  [ARun true; ARun true; AReg MI; AReg RT; AReg SO; AReg PB; AReg PU; AReg CD; AStep MI KEnd 0;
+   AApiTx; AStep AP KEnd 0; AStep AP KEnd 0; AApiTx; AStep AP KEnd 0;
+   AStopFlag; AStopReq; ARun true; ARun true; AStep MI KEnd 0; AStep CD KEnd 0; ARun true; ARun true; ARun true].
+
+Theorem send_outside_lock_refuted :
+  send_on_closed (run_sol 1 false true true sol_acts) = true /\
+  (* the code: same schedule, the sender holds the mutex, Close waits *)
+  send_on_closed (run 1 false true true sol_acts) = false /\
+  pc_of (run 1 false true true sol_acts) = RCloseTx /\
+  step 1 false true true (run 1 false true true sol_acts) (ARun true) = None /\
+  thread (run 1 false true true sol_acts) AP = TLive (PSend CTx) 0.
+Proof. vm_compute. repeat split; reflexivity. Qed.
 
 (* ---------------------------------------------------------------------------------------------- *)
 (* D27: processUnconfirmedTxs is started but does not run its first statement (the counter
